@@ -76,6 +76,7 @@ type State struct {
 	deferStack []*deferRec
 	dargs      map[*deferRec]*callArgs
 	decrVals   map[string]Term
+	names      map[string]ssa.Value // "<fn>|<source name>" -> value last referenced under that name on this path
 	retSite    ssa.Instruction
 	callRes    map[string][]Term // results of calls on this path, by site name ("call.Recv#1")
 	lockSnap   map[string]map[string]Term // monitor key+owner -> heap at the last Lock
@@ -100,7 +101,7 @@ type arrInfo struct {
 
 func (st *State) clone() *State {
 	n := &State{fx: st.fx, alloc: st.alloc, dead: st.dead, entryHeap: st.entryHeap, callDepth: st.callDepth,
-		deferStack: st.deferStack, dargs: st.dargs, decrVals: st.decrVals, retSite: st.retSite, callRes: st.callRes, lockSnap: st.lockSnap, lastLock: st.lastLock, unlockSnap: st.unlockSnap, loopFrames: st.loopFrames, joins: st.joins}
+		deferStack: st.deferStack, dargs: st.dargs, decrVals: st.decrVals, names: st.names, retSite: st.retSite, callRes: st.callRes, lockSnap: st.lockSnap, lastLock: st.lastLock, unlockSnap: st.unlockSnap, loopFrames: st.loopFrames, joins: st.joins}
 	n.vals = make(map[ssa.Value]Term, len(st.vals))
 	for k, v := range st.vals {
 		n.vals[k] = v
